@@ -21,7 +21,7 @@ RULE = ('Model-based histories over 1..3 filterbank objects: Hypothesis draws (n
 ASSUMPTIONS = ['chunks are whole multiples of num_taps*num_branches samples (the property\'s admissible sizes)',
                'reference DFT by explicit matrix product in complex128', 'comparison tolerance 1e-10 relative to the largest reference magnitude']
 REQUIRED_CLASSES = ['dtype=real', 'dtype=complex', 'dtype=int', 'chunks>=2', 'objects>=2', 'uncached_interleaved',
-                    'odd_branches', 'enumerated', 'long_call']
+                    'odd_branches', 'enumerated', 'long_call', 'huge_call', 'forked_object']
 
 WINDOWS = ['hamming', 'hann', 'boxcar', 'blackman']
 
@@ -29,7 +29,9 @@ WINDOWS = ['hamming', 'hann', 'boxcar', 'blackman']
 def strategy(tier):
     feed = st.fixed_dictionaries({'obj': st.integers(0, 2), 'w': st.integers(1, 4),
                                   'cache': st.sampled_from([True, True, True, False]),
-                                  'reset': st.sampled_from([False] * 7 + [True])})
+                                  'reset': st.sampled_from([False] * 7 + [True]),
+                                  # replace object (obj+1) by a copy of this one before feeding: both continue independently
+                                  'fork': st.sampled_from([None] * 5 + ['copy', 'deepcopy'])})
     return st.fixed_dictionaries({
         'taps': st.integers(1, 8),
         'branches': st.one_of(st.sampled_from([2, 4, 8, 16, 32, 64]), st.sampled_from([3, 5, 6, 7, 9, 10, 12])),
@@ -56,6 +58,7 @@ def enumerate_cases(tier):
     configs = [(4, 8, 'hamming', 'real'), (3, 6, 'hann', 'complex'), (2, 16, 'hamming', 'int'),
                (8, 4, 'blackman', 'real'), (1, 8, 'boxcar', 'real'), (5, 5, 'hamming', 'complex')]
     maxw = 6 if tier == 'thorough' else 5
+    yield dict(HUGE)            # one call beyond 2**22 output samples, as a long recording block produces
     for taps, br, win, dt in configs:
         for W in range(2, maxw + 1):
             for cuts in itertools.product([0, 1], repeat=W - 1):
@@ -70,6 +73,9 @@ def enumerate_cases(tier):
                 yield dict(taps=taps, branches=br, window=win, dtype=dt, seed=W * 31 + br, nobj=1,
                            feeds=[dict(obj=0, w=w, cache=True, reset=False) for w in comp],
                            lin=[1.5, -0.5], enumerated=True)
+
+
+HUGE = dict(taps=1, branches=64, window='hamming', dtype='real', seed=7, nobj=1, feeds=[], lin=[1.0, 0.0], big=None, huge=65600)
 
 
 def make_input(n, dtype, rs):
@@ -164,6 +170,16 @@ def run_case(case, ctx):
         for f in case['feeds']:
             k = f['obj'] % nobj
             pfb = objs[k]
+            if f.get('fork') and nobj >= 2:
+                import copy as _copy
+                j = (k + 1) % nobj
+                ok, forked = core.call(obs, 'fork', (_copy.copy if f['fork'] == 'copy' else _copy.deepcopy), pfb)
+                if ok:
+                    objs[j] = forked
+                    streams[j] = streams[k].copy()
+                    emitted[j] = emitted[k]
+                    chunks[j] = chunks[k]
+                    obs.cls('forked_object')
             if f['reset']:
                 core.call(obs, 'reset', pfb._reset_cache)
                 streams[k] = streams[k][:0]
@@ -200,6 +216,28 @@ def run_case(case, ctx):
             obs.cls('uncached_interleaved')
         obs.nontrivial = max(chunks) >= 2 or dtype == 'complex'
 
+        huge = case.get('huge')
+        if huge:
+            obs.cls('huge_call')
+            xh = make_input(huge * T * B, dtype, rs)
+            fresh = P.PolyphaseFilterbank(num_taps=T, num_branches=B, window_fn=win)
+            ok, got = core.call(obs, 'channelize_huge', fresh.channelize, xh.copy(), cache=False)
+            if ok:
+                want = reference_fast(xh, h, T, B)
+                good, why = close(got, want)
+                if not good:
+                    gd = np.abs(np.asarray(got) - want).max(axis=1)
+                    obs.fail('oneshot_huge', why + f'; first bad spectrum {int(np.flatnonzero(gd > 1e-8 * np.abs(want).max())[0])} of {len(want)}')
+                # the same stream fed in two chunks
+                fresh2 = P.PolyphaseFilterbank(num_taps=T, num_branches=B, window_fn=win)
+                half = (huge // 2) * T * B
+                a = fresh2.channelize(xh[:half].copy(), cache=True)
+                b = fresh2.channelize(xh[half:].copy(), cache=True)
+                good, why = close(np.concatenate([a, b]), want)
+                if not good:
+                    obs.fail('chunked_huge', why)
+            obs.nontrivial = True
+            return obs
         big = case.get('big')
         if big:
             wb = max(2, int(big) // max(1, T // 2))
